@@ -902,13 +902,19 @@ func (p *parser) buildOperatorNode(car token, children []*astNode) (*astNode, er
 	if !exist {
 		return nil, p.unknownTokenError(car)
 	}
+	n := &node{
+		flag:     operator,
+		value:    car.val,
+		operator: op,
+	}
+	// the engine short-circuits `and`/`or` and may decide the result without ever
+	// calling the operator, so their operand count cannot be left to the operator
+	if isBoolOpNode(n) && len(children) < 2 {
+		return nil, p.paramsCountErr(2, len(children), car)
+	}
 	return &astNode{
 		children: children,
-		node: &node{
-			flag:     operator,
-			value:    car.val,
-			operator: op,
-		},
+		node:     n,
 	}, nil
 }
 
